@@ -9,7 +9,10 @@ CFG = dict(
                "alone unless force is requested; demangling keeps non-empty names non-empty (for demanglers that do); the result passes "
                "CheckValid whenever the input did and the new function ids fit below 2^64; symbolz adjust detects every wrap-around; "
                "-symbolize=none does nothing; the evaluated checkers are sound for these relations; the driver pipeline around Symbolize (fetch_* theorems) keeps all of it and restores the mapping files outside known finding F34 (refuted twin); for ANY symbolizer "
-               "plug-in (arbitrary function) a profile returned by the pipeline passes CheckValid (validity is re-checked after symbolization). Model tied to the code by ~2,300 "
+               "plug-in (arbitrary function) a profile returned by the pipeline passes CheckValid (validity is re-checked after symbolization); "
+               "command line (cli_* theorems): naming an executable / build id touches only the file / build id of the main mapping (never the "
+               "has-symbols flags), without force symbolized mappings come out as they went in, pprof fails on a valid profile only when the "
+               "symbol service failed or the ids ran out. End-to-end layer: driver.PProf / interactive session / web handlers, outputs parsed back. Model tied to the code by ~2,300 "
                "differential cases per quick run (whole Symbolize runs against scripted plug-ins + direct calls of adjust, the symbolz "
                "regexp, removeMatching, looksLikeDemangledCPlusPlus).",
     level_note="Oracle-relative: ObjTool/ObjFile, the symbolz endpoint and demangle.Filter are arbitrary (scripted / tabulated), not modelled. "
@@ -31,7 +34,13 @@ CFG = dict(
          "function ids within 2 of 2^64 and mappings that still need symbols (the id counter wraps to the reserved 0: fetchProfiles must refuse); "
          "op fetchx = fetchProfiles with a third-party symbolizer plug-in that leaves the profile in one of 10 scripted states "
          "(unregistered / aliased / id-0 / duplicate-id function, nil function, unregistered mapping, value count, duplicate location id, "
-         "error after corrupting, well-behaved), its exit state shipped as the plug-in's answer. distinct = sha256 of the input term; non-trivial = a plug-in was called or the profile changed "
+         "error after corrupting, well-behaved), its exit state shipped as the plug-in's answer; op e2e = the END-TO-END layer: the real "
+         "driver.PProf (real parseFlags over a FlagSet with -symbolize, -buildid, -add_comment and an executable named as first positional "
+         "argument; profile from a Fetcher plug-in or a file) run four times per input: -proto (re-read), -traces -addresses (rows parsed), "
+         "one interactive session (granularity=addresses; traces; proto; traces) and the web interface (/download through the real "
+         "handlers), compared with the command-line model fetch_cli and judged by the same clauses; ~100 deterministic shapes (named "
+         "executable x mode x recorded file x build id on a partly symbolized profile; symbol sources answering a function identical to "
+         "another one, local and remote; file-less and mapping-less profiles) + 70 random. distinct = sha256 of the input term; non-trivial = a plug-in was called or the profile changed "
          "(sym), offset != 0 (adjust), the regexp matched (re), the name changed (rm), non-empty name (looks)",
     spec_what="symbolization changed something other than lines / names / has-flags (or touched a mapping that already had symbols without "
               "force, emptied a name, left an invalid profile, or adjust missed a wrap-around): C12 statement",
@@ -45,6 +54,9 @@ CFG = dict(
                  "max+1 wraps to the reserved id 0); the wrap-around itself is modelled and compared",
                  "demangle.Filter never answers a non-empty name by the empty string (checked on the shipped tables)",
                  "modes are ASCII (strings.ToLower)",
+                 "op e2e: sample labels are stripped (their round trip through -proto is C01's), -traces rows are compared on the (inline) marks "
+                 "and on containing the function name (value column and address/file:line text are C04/C15/C18's); an error result is accepted only "
+                 "when the proved model also fails (cli_fails_only_when)",
                  "op fetch: one source, no base profile, empty DropFrames (RemoveUninteresting is C11's), distinct sample type names "
                  "(CompatibilizeSampleTypes is C07/C16's), locateBinaries finds no binary, the source URL reported by the fetcher is "
                  "absolute (as adjustURL produces); class 34 = known finding F34 (unsourceMappings erases URL-like files it never wrote)"],
